@@ -1,5 +1,6 @@
 import Judge.Oracles
 import Judge.Lookups
+import OVM.Tet.Kernel
 import Std.Data.HashMap
 import Std.Data.HashSet
 /-
@@ -48,7 +49,7 @@ def judgeStep (kind : String) (pre : Obs) (s : Step) : List Finding := Id.run do
   -- X: model step on the implementation's previous state
   match opOfStep s with
   | some op =>
-    let (m', r) := pre.k.step op
+    let (m', r) := if kind == "tet" then pre.k.stepTet op else pre.k.step op
     out := out ++ cmpKernel m' s.post.k (isSwapOp s.op)
     match s.res.toInt? with
     | some ri => if ri != r then out := out ++ [Finding.xfail "return" (toString r) (toString ri)]
